@@ -890,6 +890,24 @@ class Engine(object):
         for (t, v) in st.conds:
             if t == pos:
                 return v if pol else (not v)
+        # the same order fact under another spelling:  x < y  <=>  !(y <= x);  x < y  =>  x <= y
+        pa = single_atom(pos)
+        if pa is not None and pa[0] == 'cmp' and pa[1] in ('ult', 'ule', 'slt', 'sle'):
+            strict = pa[1] in ('ult', 'slt')
+            fam = 'u' if pa[1][0] == 'u' else 's'
+            conv = atom(('cmp', fam + ('le' if strict else 'lt'), pa[3], pa[2]))
+            weak = atom(('cmp', fam + 'le', pa[2], pa[3])) if strict else None
+            strong = atom(('cmp', fam + 'lt', pa[2], pa[3])) if not strict else None
+            for (t, v) in st.conds:
+                r = None
+                if t == conv:
+                    r = not v
+                elif weak is not None and t == weak and v is False:
+                    r = False          # !(x <= y)  =>  !(x < y)
+                elif strong is not None and t == strong and v is True:
+                    r = True           # x < y  =>  x <= y
+                if r is not None:
+                    return r if pol else (not r)
         # implied by an equality with a constant learned on the path (path-constant propagation:
         # `if (new_size == 0) erase_all ();` followed by comparisons against new_size)
         consts = {}
